@@ -618,6 +618,9 @@ def rids_wire_ids_derive_both(ctx):
 # its failure class" and "exactly one well-formed response object (jsonrpc, id, exactly one of result/error)": the code
 # tables and the response serialiser (C15)
 BORROWED = [_borrowed("c16", n) for n in ("r1_only_invalid_params", "r2_poison_on_error", "r3_exhaustion_table", "r4_absent_params", "rown_into_owned", "rnext_reads_T", "rone_is_one_array_parse")] + [_borrowed("c15", n) for n in ("r1_code_tables", "r2_serializer")] + [_borrowed("c04", "r10_lossy_sends_are_the_api_only")]
+# "answered with the handler's result": a result that fits the configured response limit - including one of exactly that
+# size - is not replaced by -32008 (the bounded writer's guard is the inclusive `size <= limit`) (= C08.R2)
+BORROWED += [_borrowed("c08", "r2_bounded_writer")]
 
 
 def r14_every_data_message_reaches_the_task(ctx):
@@ -657,13 +660,18 @@ def r14_every_data_message_reaches_the_task(ctx):
                     lv = tr.origins(b, st["rv"]["ops"][0])
                     R.check(any("Data" in " ".join(l.chain) for l in lv), "C01.R14", "try_recv:returns-the-payload", "Receive::Ok carries the received payload", "Receive::Ok does not carry the received payload", "%s:%d" % (b.file, st["sp"][0]))
     # the unfold stream in background_task: Data -> Incoming::Data(buffer), on every path of that arm
-    st_b = [x for x in F.find(r"^jsonrpsee_server::transport::ws::background_task::\{closure#0\}::\{closure#\d+\}::\{closure#0\}$") if x.calls_to(r"soketto::(connection::)?Receiver::<.*>::receive$")]
+    st_b = [x for x in F.real_bodies() if x.crate == SERVER and not is_test_body(x) and x.path.startswith("jsonrpsee_server::transport::ws::") and x.calls_to(r"soketto::(connection::)?Receiver::<.*>::receive$")]
     if len(st_b) != 1:
         raise AnchorLost("the receive stream of ws::background_task (found %d)" % len(st_b))
     sb_ = st_b[0]
     R.fn(sb_)
     datas = [bi for bi, blk in enumerate(sb_.blocks) for st in blk["st"] if st["s"] == "assign" and st["rv"]["k"] == "agg" and st["rv"].get("variant") == "Data" and (st["rv"].get("adt") or "").endswith("ws::Incoming")]
     R.check(len(datas) >= 1, "C01.R14", "stream:forwards-data", "the receive stream yields Incoming::Data for data frames", "the receive stream never builds Incoming::Data", "%s:%d" % (sb_.file, sb_.lo))
+    # ... and forwards them unseen: the adapter calls nothing but the receive itself (and what allocates its buffer /
+    # converts its error). A frame that is looked at here (is it text? is it UTF-8? is it empty?) and turned into an error
+    # or skipped never reaches the task that answers it - and the receive loop ends the connection on an error
+    seen = [c for c in sb_.calls if not c.exp and not re.search(r"Receiver::<.*>::receive$|^std::vec::Vec::<.*>::(new|with_capacity)$|^<.* as std::convert::(From|Into)<.*>>::(from|into)$|^std::convert::(From|Into)::(from|into)$|^std::mem::drop$", c.name() or "")]
+    R.check(not seen, "C01.R14", "stream:frames-forwarded-unseen", "the receive stream hands every frame on without looking at it", "the WebSocket receive stream examines the frame it received (%s): a message can be turned into a receive error or skipped there, so it is never answered (and a receive error closes the connection) although the same bytes over HTTP are answered -32700" % sorted({short(c.name()) for c in seen}), where(seen[0]) if seen else None)
 
 
 def r13_subscription_kind_is_sent_by_its_creator(ctx):
